@@ -53,6 +53,13 @@ DATATYPES = {
     # (an unknown unit: the stock function raises TypeError, not ValueError)
     "timedelta": (["4w 2d", "1.5h", "14s"], "5x"),
 }
+# stock conversion functions named by their DOTTED names (what a component
+# author writes who does not know the short names): used by components only
+DOTTED_STOCK = {
+    "ZConfig.datatypes.asBoolean": (["yes", "off"], "maybe"),
+    "ZConfig.datatypes.integer": (["7", "-1"], "seven"),
+    "ZConfig.datatypes.port_number": (["80"], "70000"),
+}
 for _n in range(8):
     DATATYPES["zcsim.simdt.conv_%d" % _n] = (["v1", "plain text", "Z"], "!bad")
     DATATYPES["zcsim.simdt.Conv_%d" % _n] = (["v1", "plain text", "Z"], "!bad")
@@ -61,9 +68,10 @@ for _n in range(8):
     DATATYPES["zcsim_pdt.conv_%d" % _n] = (["v1", "plain text", "Z"], "!bad")
 del _n
 
+DATATYPES.update(DOTTED_STOCK)
 REJECTING = [d for d, (_v, bad) in DATATYPES.items()
              if bad is not None and ".Conv_" not in d
-             and not d.startswith("zcsim_pdt.")]
+             and not d.startswith(("zcsim_pdt.", "ZConfig.datatypes."))]
 STD_REJECTING = [d for d in REJECTING if not d.startswith("zcsim.")]
 
 KEYTYPES = ["basic-key", "basic-key", "basic-key", "identifier",
@@ -206,7 +214,7 @@ def gen_items(rng, c, o, ir, concrete, abstracts, top=False, allow_wild=True,
     items = []
     nkeys = rng.randint(0 if not top else 1, 4)
     dts = [d for d in DATATYPES if ".Conv_" not in d
-           and not d.startswith("zcsim_pdt.")]
+           and not d.startswith(("zcsim_pdt.", "ZConfig.datatypes."))]
     if o["std_only"] or not o["callbacks"]:
         dts = [d for d in dts if not d.startswith("zcsim.")]
     have_wild = not allow_wild
